@@ -10,7 +10,7 @@ import os
 from .. import core
 from ..models import closures as M
 from ..models import objects as O
-from .c07 import execute, compare, witness
+from .c07 import execute, compare, witness, dynamic_lookup_defect_listed
 
 MUTATION = os.environ.get("VERIF_MODEL_MUTATION") or None     # validation of the oracle only (see notes)
 
@@ -766,7 +766,8 @@ def work_catalogue(item):
     return res
 
 
-def work_random(seed):
+def work_random(item):
+    seed, discard_hazards = item
     res = {"kind": "random", "seed": seed, "runs": 0}
     src, kinds, feats = O.gen_history(seed)
     res["kinds"] = kinds
@@ -778,7 +779,7 @@ def work_random(seed):
         res["msg"] = str(d)
         return res
     res["stats"] = model["stats"]
-    if model["hazards"]:
+    if model["hazards"] and discard_hazards:
         res["verdict"] = "avoided"
         res["hazards"] = sorted(set(h[0] for h in model["hazards"]))
         return res
@@ -823,7 +824,8 @@ def run(ctx):
     items = [("cat", c) for c in CATALOGUE]
     nrand = ctx.n(1500, 30000)
     base = ctx.rng("histories").randrange(1 << 40)
-    items += [("rand", base + i) for i in range(nrand)]
+    discard_hazards = dynamic_lookup_defect_listed()
+    items += [("rand", (base + i, discard_hazards)) for i in range(nrand)]
     results = core.pmap(work, items, chunksize=8)
     cov = {"catalogue_cases": len(CATALOGUE), "catalogue_agree": 0, "catalogue_rejected": [], "random_histories": 0,
            "random_agree": 0, "random_rejected": 0, "random_avoided_by_rule": 0, "random_model_discard": 0,
@@ -899,7 +901,8 @@ def run(ctx):
     cov["rejected_examples"] = rejected_examples
     cov["avoidance_rules"] = {
         "caller_local_shadow": "every binding (variables, parameters, fields, methods, classes) has a globally unique name; "
-                               "histories in which the model meets the C07 dynamic-name-search defect are discarded"}
+                               "histories in which the model meets the C07 dynamic-name-search defect are discarded "
+                               "while that defect is a listed C07 finding (now: %s)" % ("listed" if discard_hazards else "not listed")}
     if MUTATION:
         cov["model_mutation"] = MUTATION
     out.coverage.update(cov)
